@@ -76,8 +76,9 @@ func (r *c10Reader) ReadTiles(tiles []tlog.Tile) (out [][]byte, err error) {
 			core.SetHarnessError(fmt.Sprintf("c10 ReadTiles seam panicked: %v", e))
 			out, err = nil, fmt.Errorf("harness panic")
 		}
-		r.countBad = err == nil && len(out) != len(tiles)
-		r.delivered = 0
+		// accumulated over every ReadTiles call of one ReadHashes (the caller resets both before the read):
+		// a reader may fetch in several rounds, or fetch a tile again
+		r.countBad = r.countBad || err == nil && len(out) != len(tiles)
 		for i := range out {
 			if i < len(tiles) && !bytes.Equal(out[i], trueTile(r.tree, tiles[i])) {
 				r.delivered++
@@ -293,7 +294,9 @@ func runC10(p *c10Params) *core.Result {
 				}
 			}
 			if rd.countBad {
-				res.Fail("C10", "seam-contract", "wrong result count from ReadTiles accepted", "ReadTiles returned a result slice of the wrong length and the read succeeded")
+				// not a violation by itself: the hashes returned were checked to be the true ones (a reader
+				// may ask again after a malformed answer)
+				res.Probes["read-succeeded-after-wrong-result-count"]++
 			}
 			if faulted {
 				res.Probes["faulted-read-succeeded-with-true-hashes"]++
